@@ -13,6 +13,7 @@ import Gedcom.Lemmas.Regex
 import Gedcom.Lemmas.MultiLineLegal
 import Gedcom.Lemmas.RegexSound
 import Gedcom.Generated.DecodeLogic
+import Gedcom.Generated.DecodeCont
 namespace Gedcom.C02
 open Gedcom Gedcom.Dec
 
@@ -452,5 +453,62 @@ theorem place_is_modelDecide (o : Opts) (s : St) (l : Line) :
         rcases s with ⟨r, _ | ⟨f, fs⟩, sf⟩ <;> simp [trimTop]
       have := closeTo_len l.level (trimTop s) (by omega)
       simp [push, this]
+
+/-! ## Continuation lines and role tags: the source's rules
+
+`Generated/DecodeCont.lean` is translated on every run from `Decoder.Decode` and `parseLine`: the
+condition under which a blank line / a rejected line continues the previous value, what is
+appended, the error otherwise, and the tags whose lines need a family. -/
+
+/-- **Obligation**: the translated conditions and appended pieces were inside the translator's
+    fragment, both continuation branches `continue`, the other branch returns the error whose
+    format starts with the line number, and the family cursor is set from FAM nodes -/
+theorem decode_cont_translated :
+    Generated.blankCond.ok = true ∧ Generated.contCond.ok = true ∧
+    Generated.blankAppend.all (· != .bad) = true ∧ Generated.contAppend.all (· != .bad) = true ∧
+    Generated.blankContinues = true ∧ Generated.contContinues = true ∧
+    Generated.errorReturns = true ∧ Generated.errorFormat = "line %d: %s" ∧
+    Generated.familyCursorSet = true := by decide
+
+/-- **Blank lines.** The model's step on a blank line is the source's rule: when the translated
+    condition holds (`previousNode != nil` is "some node is open") the translated bytes are
+    appended to the deepest open node's value, otherwise nothing happens; the loop goes on. -/
+theorem step_blank_is_source (o : Opts) (s : St) :
+    step o s [] = .next
+      (if Generated.blankCond.eval o.allowMultiLine (!s.stack.isEmpty) then
+        appendTop (DecodeLogic.evalAppend [] Generated.blankAppend) s else s) := by
+  simp [step, Generated.blankCond, Generated.blankAppend, DecodeLogic.CExp.eval,
+    DecodeLogic.evalAppend, DecodeLogic.SPiece.eval, LF]
+
+/-- **Rejected lines.** A non-blank line that is not in the line grammar continues the previous
+    value with exactly the bytes the source appends (`"\n" + line`) under the source's condition,
+    and is the error otherwise. -/
+theorem step_unparsable_is_source (o : Opts) (s : St) (line : Str) (hne : line ≠ [])
+    (hp : parseLine line = none) :
+    step o s line =
+      if Generated.contCond.eval o.allowMultiLine (!s.stack.isEmpty) then
+        .next (appendTop (DecodeLogic.evalAppend line Generated.contAppend) s)
+      else .error := by
+  simp [step, hne, hp, unparsable, Generated.contCond, Generated.contAppend, DecodeLogic.CExp.eval,
+    DecodeLogic.evalAppend, DecodeLogic.SPiece.eval, LF]
+
+/-- **Role tags.** The tags whose lines `parseLine` refuses without a family are exactly the
+    model's role tags, and such a line before any family is treated like a rejected line. -/
+theorem role_tags_are_source (t : Str) : isRoleTag t = Generated.roleTags.contains t := by
+  simp only [isRoleTag, Generated.roleTags, tHUSB, tWIFE, tCHIL, List.contains_cons,
+    List.contains_nil, Bool.or_false]
+  cases h1 : t == [72, 85, 83, 66] <;> cases h2 : t == [87, 73, 70, 69] <;>
+    cases h3 : t == [67, 72, 73, 76] <;> rfl
+
+theorem step_role_without_family_is_source (o : Opts) (s : St) (line : Str) (l : Line)
+    (hne : line ≠ []) (hp : parseLine line = some l)
+    (hr : Generated.roleTags.contains l.tag = true) (hf : s.seenFam = false) :
+    step o s line =
+      if Generated.contCond.eval o.allowMultiLine (!s.stack.isEmpty) then
+        .next (appendTop (DecodeLogic.evalAppend line Generated.contAppend) s)
+      else .error := by
+  have hr' : isRoleTag l.tag = true := by rw [role_tags_are_source]; exact hr
+  simp [step, hne, hp, hr', hf, unparsable, Generated.contCond, Generated.contAppend,
+    DecodeLogic.CExp.eval, DecodeLogic.evalAppend, DecodeLogic.SPiece.eval, LF]
 
 end Gedcom.C02
